@@ -747,6 +747,14 @@ func (c *Conn) WriteTx(prog TxProgram, ref *Image) (res TxResult) {
 	}
 	// COMMIT phase two: finalise the journal. This is the commit point.
 	if at, e := c.finalizeJournal(); e != 0 {
+		if at == "journal-fsync3" {
+			// the journal has already been truncated / its header zeroed: there
+			// is nothing left to roll back from, the transaction is committed and
+			// only the sync of the journal file failed (the pager goes into its
+			// error state and drops its cache and locks)
+			c.abortTx()
+			return TxResult{Outcome: "error", Errno: e, FailedAt: at, After: newIm}
+		}
 		return fail(at, e)
 	}
 	if c.OnCommitPoint != nil {
@@ -837,6 +845,125 @@ func (c *Conn) hotJournalProbe() (hot bool) {
 	b, _ := f.Pread(0, 1)
 	f.Close()
 	return len(b) == 1 && b[0] != 0
+}
+
+// RecoverHotJournal is what the next connection does when it finds a hot
+// journal while taking its SHARED lock (pager.c sqlite3PagerSharedLock ->
+// pager_playback(isHot=1)): EXCLUSIVE, open the journal read/write, cut the
+// database back to the size recorded in the first header, write every record
+// whose checksum matches its segment's nonce back into the database file,
+// stop at the first header or record that is not valid, sync the database,
+// finalise the journal the way the journal mode says, go back to SHARED.
+// The connection must hold SHARED. Returns whether a rollback was performed.
+func (c *Conn) RecoverHotJournal() (bool, string, syscall.Errno) {
+	if !c.hotJournalProbe() {
+		return false, "", 0
+	}
+	if e := c.LockExclusive(); e != 0 {
+		return false, "hot-exclusive", e
+	}
+	if c.jf != nil {
+		c.jf.Close()
+		c.jf = nil
+	}
+	jf, e := c.k.Open(c.DB+"-journal", os.O_RDWR, c.Owner)
+	if e != 0 {
+		c.Downgrade()
+		return false, "hot-open", e
+	}
+	c.jf = jf
+	c.r.Count("pager.hot-journal-rollback")
+	if e := c.jsync(); e != 0 {
+		return false, "hot-journal-fsync", e
+	}
+	size, e := jf.Size()
+	if e != 0 {
+		return false, "hot-size", e
+	}
+	raw, e := jf.Pread(0, int(size))
+	if e != 0 {
+		return false, "hot-read", e
+	}
+	ps := int64(c.PageSize)
+	off := int64(0)
+	first := true
+	for off+28 <= size {
+		h := raw[off:]
+		if string(h[:8]) != string(journalMagic) {
+			break
+		}
+		nRec := binary.BigEndian.Uint32(h[8:])
+		nonce := binary.BigEndian.Uint32(h[12:])
+		origSize := binary.BigEndian.Uint32(h[16:])
+		sector := int64(binary.BigEndian.Uint32(h[20:]))
+		pageSize := int64(binary.BigEndian.Uint32(h[24:]))
+		if first {
+			if sector < 32 || sector > 65536 || sector&(sector-1) != 0 || pageSize != ps {
+				break
+			}
+			if sz, e2 := c.dbf.Size(); e2 == 0 && sz > int64(origSize)*ps {
+				if e := c.dbf.Truncate(int64(origSize) * ps); e != 0 {
+					return false, "hot-truncate", e
+				}
+			}
+			first = false
+		} else {
+			sector = int64(c.SectorSize)
+		}
+		rec := off + sector
+		if nRec == 0xffffffff {
+			nRec = uint32((size - rec) / (ps + 8))
+		}
+		bad := false
+		for i := uint32(0); i < nRec; i++ {
+			if rec+ps+8 > size {
+				bad = true
+				break
+			}
+			pgno := binary.BigEndian.Uint32(raw[rec:])
+			data := raw[rec+4 : rec+4+ps]
+			if pgno == 0 || pgno == LockPgno(c.PageSize) || binary.BigEndian.Uint32(raw[rec+4+ps:]) != journalCksum(data, nonce) {
+				bad = true
+				break
+			}
+			if pgno <= origSize {
+				if e := c.dbf.Pwrite(int64(pgno-1)*ps, data); e != 0 {
+					return false, "hot-write", e
+				}
+			}
+			rec += ps + 8
+		}
+		if bad {
+			break
+		}
+		// next segment header at the next sector boundary
+		off = ((rec + sector - 1) / sector) * sector
+	}
+	if e := c.dbf.Fsync(); e != 0 {
+		return false, "hot-db-fsync", e
+	}
+	if at, e := c.finalizeJournal(); e != 0 {
+		return false, "hot-" + at, e
+	}
+	if e := c.Downgrade(); e != 0 {
+		return true, "hot-downgrade", e
+	}
+	return true, "", 0
+}
+
+// ReadTxRecover is ReadTx as a fresh connection does it: a hot journal is
+// rolled back first.
+func (c *Conn) ReadTxRecover() (*Image, syscall.Errno) {
+	if e := c.LockShared(); e != 0 {
+		return nil, e
+	}
+	if _, _, e := c.RecoverHotJournal(); e != 0 {
+		c.UnlockAll()
+		return nil, e
+	}
+	im, e := c.ReadImageLocked()
+	c.UnlockAll()
+	return im, e
 }
 
 // GenProgram draws a rollback-mode transaction program from the tape.
